@@ -1922,4 +1922,62 @@ example : kernActsOnX xWitness "armn" = true ∧ kernActsOnX xWitness "hebr" = f
     holdsX xWitness [("DFLT", "dflt", "kern"), ("DFLT", "dflt", "mark"), ("armn", "dflt", "kern"), ("armn", "dflt", "mark"),
                      ("cyrl", "dflt", "kern"), ("cyrl", "dflt", "mark"), ("hebr", "dflt", "mark")] = true := by decide
 
+/-! ### variable fonts: pair universe of `getVariableKerningPairs` -/
+
+theorem mem_kunion (a b : List KP) (p : KP) : p ∈ kunion a b ↔ p ∈ a ∨ p ∈ b := by
+  by_cases h : p ∈ a <;> simp [kunion, h]
+
+theorem mem_varAllPairs (srcs : List KSrc) (p : KP) :
+    p ∈ varAllPairs srcs ↔ ∃ s, s ∈ srcs ∧ s.layer = false ∧ p ∈ s.pairs := by
+  induction srcs with
+  | nil => simp [varAllPairs]
+  | cons s r ih =>
+    simp only [varAllPairs]
+    by_cases hl : s.layer = true
+    · simp only [hl, if_true, ih, mem_cons]
+      constructor
+      · rintro ⟨t, ht, h1, h2⟩; exact ⟨t, Or.inr ht, h1, h2⟩
+      · rintro ⟨t, ht, h1, h2⟩
+        rcases ht with rfl | ht
+        · simp [hl] at h1
+        · exact ⟨t, ht, h1, h2⟩
+    · have hl' : s.layer = false := by simpa using hl
+      simp only [hl', Bool.false_eq_true, if_false, mem_kunion, ih, mem_cons]
+      constructor
+      · rintro (h | ⟨t, ht, h1, h2⟩)
+        · exact ⟨s, Or.inl rfl, hl', h⟩
+        · exact ⟨t, Or.inr ht, h1, h2⟩
+      · rintro ⟨t, ht, h1, h2⟩
+        rcases ht with rfl | ht
+        · exact Or.inl h2
+        · exact Or.inr ⟨t, ht, h1, h2⟩
+
+/-- **variable builds**: every kerning pair of every full source (default or not) whose sides exist is collated, and
+only such pairs are - for all source lists. -/
+theorem C20_var_pairs (srcs : List KSrc) (known : List String) :
+    holdsVarPairs srcs known (varKeys srcs known) = true := by
+  simp only [holdsVarPairs, Bool.and_eq_true, all_eq_true, Bool.or_eq_true, any_eq_true,
+    contains_iff_mem, Bool.not_eq_eq_eq_not, Bool.not_true]
+  constructor
+  · intro s hs
+    by_cases hl : s.layer = true
+    · exact Or.inl hl
+    · right
+      intro p hp
+      by_cases hk : (known.contains p.1 && known.contains p.2) = true
+      · right
+        simp only [varKeys, mem_filter]
+        exact ⟨(mem_varAllPairs srcs p).2 ⟨s, hs, by simpa using hl, hp⟩, hk⟩
+      · left; simpa using hk
+  · intro p hp
+    simp only [varKeys, mem_filter] at hp
+    obtain ⟨s, hs, h1, h2⟩ := (mem_varAllPairs srcs p).1 hp.1
+    exact ⟨s, hs, by simp [h1, h2]⟩
+
+/-- a script kerned only in the non-default master: its pairs are collated; taking the default source's pairs only is not -/
+example : holdsVarPairs [⟨false, [("A", "V")]⟩, ⟨false, [("A", "V"), ("Alpha", "Upsilon")]⟩] ["A", "V", "Alpha", "Upsilon"]
+      (varKeys [⟨false, [("A", "V")]⟩, ⟨false, [("A", "V"), ("Alpha", "Upsilon")]⟩] ["A", "V", "Alpha", "Upsilon"]) = true ∧
+    holdsVarPairs [⟨false, [("A", "V")]⟩, ⟨false, [("A", "V"), ("Alpha", "Upsilon")]⟩] ["A", "V", "Alpha", "Upsilon"]
+      [("A", "V")] = false := by decide
+
 end Ufo2ft.C20
